@@ -99,6 +99,67 @@ theorem dedupLoop_eq (bombs : List Id) (rest : List Id) :
           rw [e, this]
           simp
 
+/-- the ghost trace of the loop = the list-level calls: each inspected element goes with the last RETAINED one -/
+theorem dedupCallsLoop_eq (bombs : List Id) (rest : List Id) :
+    ∀ (kinit : List Id) (klast : Id) (k : Nat) (T : List Slot) (v : Vec) (o : List Outcome),
+      v.slots = I (kinit ++ [klast]) ++ H k ++ I rest ++ T →
+      dedupCallsLoop bombs rest.length v ((kinit ++ [klast]).length + k) (kinit ++ [klast]).length o =
+        dedupCallsSpec bombs klast rest o := by
+  induction rest with
+  | nil => intro kinit klast k T v o _; simp [dedupCallsLoop, dedupCallsSpec]
+  | cons x rest ih =>
+    intro kinit klast k T v o hs
+    have hs1 : v.slots = (I (kinit ++ [klast]) ++ H k) ++ Slot.init x :: (I rest ++ T) := by simp [hs]
+    have hpeek : peek v ((kinit ++ [klast]).length + k) = .ok x := peek_mid hs1 (by simp <;> omega)
+    have hs0 : v.slots = I kinit ++ Slot.init klast :: (H k ++ I (x :: rest) ++ T) := by simp [hs]
+    have hpeek2 : peek v ((kinit ++ [klast]).length - 1) = .ok klast := peek_mid hs0 (by simp)
+    simp only [List.length_cons, dedupCallsLoop, hpeek, hpeek2]
+    match o with
+    | [] => simp [dedupCallsSpec]
+    | .panic :: o => simp [dedupCallsSpec]
+    | .ret b :: o =>
+      simp only [dedupCallsSpec]
+      congr 1
+      by_cases hb : b = 0
+      · simp only [hb, ne_eq, not_true_eq_false, ↓reduceIte]
+        have hs3 : v.slots = I (kinit ++ [klast]) ++ H k ++ [Slot.init x] ++ (I rest ++ T) := by simp [hs]
+        rw [copy_back hs3 (by simp) (by simp) (by simp)]
+        have hs4 : I (kinit ++ [klast]) ++ [Slot.init x] ++ H k ++ (I rest ++ T) =
+            I ((kinit ++ [klast]) ++ [x]) ++ H k ++ I rest ++ T := by simp
+        have := ih (kinit ++ [klast]) x k T { v with slots := I (kinit ++ [klast]) ++ [Slot.init x] ++ H k ++ (I rest ++ T) } o hs4
+        have e1 : (kinit ++ [klast]).length + k + 1 = ((kinit ++ [klast]) ++ [x]).length + k := by simp; omega
+        have e2 : (kinit ++ [klast]).length + 1 = ((kinit ++ [klast]) ++ [x]).length := by simp
+        simp only [e1, e2, this]
+      · simp only [hb, ne_eq, not_false_eq_true, ↓reduceIte]
+        rw [dropAt_mid hs1 (by simp <;> omega)]
+        simp only [Bool.not_false, Bool.true_and]
+        by_cases hbomb : bombs.contains x = true
+        · simp only [hbomb, ↓reduceIte]
+        · have hb' : bombs.contains x = false := by simpa using hbomb
+          simp only [hb', Bool.false_eq_true, ↓reduceIte]
+          have hs2 : (I (kinit ++ [klast]) ++ H k) ++ Slot.hole :: (I rest ++ T) = I (kinit ++ [klast]) ++ H (k + 1) ++ I rest ++ T := by
+            simp
+          have := ih kinit klast (k + 1) T { v with slots := (I (kinit ++ [klast]) ++ H k) ++ Slot.hole :: (I rest ++ T), dropLog := v.dropLog ++ [x] } o hs2
+          have e : (kinit ++ [klast]).length + k + 1 = (kinit ++ [klast]).length + (k + 1) := by omega
+          rw [e, this]
+
+/-- **the calls of `dedup_by`**: on a vector holding `x :: xs`, `same_bucket` is called with exactly the pairs
+    `Vec::dedup_by` would call it with — (inspected element, last retained element) -/
+theorem dedupCalls_eq (bombs : List Id) (v : Vec) (x : Id) (xs : List Id) (o : List Outcome)
+    (hs : v.slots = I (x :: xs) ++ H (v.cap - v.len)) (hl : (x :: xs).length = v.len) :
+    dedupCalls bombs v o = dedupCallsSpec bombs x xs o := by
+  unfold dedupCalls
+  simp only [List.length_cons] at hl
+  by_cases h1 : v.len ≤ 1
+  · have : xs = [] := List.eq_nil_of_length_eq_zero (by omega)
+    subst this
+    simp [h1, dedupCallsSpec]
+  · simp only [h1, ↓reduceIte]
+    have hs' : v.slots = I ([] ++ [x]) ++ H 0 ++ I xs ++ H (v.cap - v.len) := by simpa using hs
+    have := dedupCallsLoop_eq bombs xs [] x 0 (H (v.cap - v.len)) v o hs'
+    have e : v.len - 1 = xs.length := by omega
+    simpa [e] using this
+
 /-- **refinement**: on a vector holding `xs` (any spare capacity) `dedup_by` behaves as `dedupSpec` -/
 theorem dedupBy_eq (bombs : List Id) (v : Vec) (xs : List Id) (o : List Outcome)
     (hs : v.slots = I xs ++ H (v.cap - v.len)) (hl : xs.length = v.len) :
